@@ -14,6 +14,14 @@ tie T  : three tables are regenerated from the working tree on every run into fi
          locally_linear.hpp, tsne.hpp), coq/gen/Validate_C01.v (translate/t_val.py: the clauses of validate()),
          coq/gen/EigSelect_C01.v (translate/t_eig.py: eigen slices).  Shapes_Proof_Tie.v proves, for all sizes,
          that each generated expression denotes what the hand-written model uses: an edit re-opens an obligation.
+streams: besides the boundary / SPE / finiteness / random streams: HUGE finite magnitudes (1e150 .. 1e307, every method,
+         all neighbour methods), SPECIAL keyword values (max_iteration 0 = automatic / 1 / 2, shifts at exactly 0,
+         library defaults left unset vs set explicitly), data kinds offset (1e6 .. 1e12 x spread), bridge (two clusters
+         1e-9 .. 1e-15 wide), tielattice (scaled permuted integer lattice), dupgeneric; and TWINS: the same interior
+         request as a plain call and from INSIDE an application's `omp parallel` region (2 threads; 3 threads with
+         OMP_THREAD_LIMIT < OMP_NUM_THREADS and nested parallelism on): same outcome class required.  Fresh heap
+         memory reads as NaN in the sanitizer build (ASan malloc_fill_byte=255): a result computed from
+         uninitialised doubles is non-finite.
 search : when a proof obligation or the correspondence breaks: (1) model-guided: the extracted detector
          src_differs_mask tells on which requests of a box (all methods x small N x d x k x keywords) the
          regenerated tables and the model part; those requests run on the real library first; (2) a
@@ -41,6 +49,9 @@ TRUSTED = [
     "Python with the same double expressions as the C++ (their exact semantics is property C14)",
     "extraction (ExtrOcamlBasic only) + OCaml + coq/extract/c01_driver.ml (parsing/printing)",
     "finiteness of returned entries is a TEST on the generic stream (numerical, not proved)",
+    "OpenMP facts (throw statements inside parallel regions, orphaned work-sharing constructs) are LEXICAL: a throw "
+    "reached through a call made from inside a region, or a region entered through a callback, is seen only by the "
+    "huge-magnitude / in-region streams; ASan's malloc_fill_byte=255 is trusted to poison fresh heap memory",
     "translators t_shapes.py (regex + integer-expression parser over four headers), t_val.py (C14's) and t_eig.py "
     "(C05's): trusted to report the expressions that are in the source; a statement they cannot read is recorded "
     "as 'tie not renewed' (the sweep still runs), a statement they read differently re-opens the Coq obligations",
@@ -1051,8 +1062,8 @@ def suspect_cases(ctx, mexe, rng, limit):
 
 
 def search_phase(ctx, exes, mexe, rng, stats, budget):
-    """(1) model-guided suspects, (2) boundary-aimed sweep at a larger budget, every method, dense solver,
-    connectivity check off"""
+    """(1) model-guided suspects, (2) in-region twins + huge magnitudes + special keyword values at the thorough
+    budget, (3) boundary-aimed sweep at a larger budget, every method, dense solver, connectivity check off"""
     n = 0
     try:
         picked, nbox, nsus = suspect_cases(ctx, mexe, rng, 60)
@@ -1065,6 +1076,18 @@ def search_phase(ctx, exes, mexe, rng, stats, budget):
                 return n
     except vlib.BuildError as ex:
         ctx.note("search phase, model-guided part failed: " + str(ex)[:200])
+    # (2) calling context, huge magnitudes, special keyword values at the thorough budget: what the wave-3 facts
+    # (throw inside an OpenMP region, orphaned work-sharing construct, annealing divisor) are about
+    for i, (label, T, env_extra) in enumerate(PAR_ENVS):
+        pc = par_cases(rng, 600000 + 1000 * i, T)
+        evaluate(ctx, {"san": exes["san"]}, mexe, pc, stats, env_extra=env_extra)
+        n += len(pc)
+    extra = huge_cases(rng, 610000, False) + special_cases(rng, 620000, False)
+    evaluate(ctx, exes, mexe, extra, stats)
+    n += len(extra)
+    if ctx.has_violation():
+        return n
+    # (3) boundary sweep
     cases = boundary_cases(rng, 500000, budget)
     for c in cases:
         if c["m"] in EIGEN:
@@ -1180,8 +1203,9 @@ def run(ctx):
         evaluations=n, distinct_nontrivial=len(distinct),
         rule="requests through tapkee::embed (public API): corpus witnesses, a boundary stream (per method, "
              "target_dimension on both sides of D, num_neighbors, #landmarks, N-2, N-1, N) and a random stream "
-             "(20 methods x 3 neighbour methods x 2 solvers x N in {1..50} x 7 data kinds, keywords mostly valid, "
-             "sometimes on/beyond their bound); each request runs in the ASan+UBSan+_GLIBCXX_ASSERTIONS build and "
+             "(20 methods x 3 neighbour methods x 2 solvers x N in {1..50} x 12 data kinds, keywords mostly valid, "
+             "sometimes on/beyond their bound), a huge-magnitude stream (1e154 .. 1e300), a special-keyword-value stream "
+             "and in-parallel-region twins (sanitizer build only); each other request runs in the ASan+UBSan+_GLIBCXX_ASSERTIONS build and "
              "in the Eigen-assertions build (evaluations = 2 per request); non-trivial = the model lets the request "
              "proceed to embed(); distinct by (method, back-ends, N, D, d, k, kind, keywords)",
         samples=[pub(c) for c in cases[:3] + cases[ncorpus:ncorpus + 3] + cases[-2:]],
